@@ -265,6 +265,22 @@ func checkC02(w *Worker) {
 		}
 		verify(x, 0, ri, c02Books[0], lg)
 	})
+	// every special scenario whose amounts are exact (harness/specials.go) through every renderer, against the reference
+	var c02Specials []specialScenario
+	for _, sc := range specialScenarios() {
+		if sc.Exact && sc.Name != "repeated-heading-in-the-book" { // (which of two definitions counts is not C02's business)
+			c02Specials = append(c02Specials, sc)
+		}
+	}
+	w.Explore("special-scenarios", ExploreOpts{ShardDepth: 2}, func(x *Exec) {
+		ri := x.Choose(nRend, "input:renderer")
+		sc := c02Specials[x.Choose(len(c02Specials), "input:scenario")]
+		if ri == len(regRenderers) {
+			x.Case("skip: summary is explored on the generated logs", false)
+			return
+		}
+		verify(x, 100, ri, sc.Book, sc.Log)
+	})
 	// merge shapes: longer days over a small food alphabet; the i-th entry has quantity 2^i, so the
 	// merged quantity of a food identifies exactly which entries were folded into it
 	maxLen := 6
